@@ -246,4 +246,21 @@ CONFIG = {
         "quick": {"checks": 600, "shards": 8},
         "thorough": {"checks": 20000, "shards": 16, "timeout": 7200, "fuzz": [("FuzzCsvRowA", 60), ("FuzzCsvRowB", 60), ("FuzzCsvRowC", 60)]},
     },
+    "C19": {
+        "rule": "rapid properties per reader: CSV with and without header x four row shapes (string/bool/ints, uints/floats, times with default and tagged format + renamed headers, "
+                "asset.Snapshot); JSON stream reader for int, float64, string, Snapshot; Tiingo GetSince/LastDate against an httptest server with a generated body and status "
+                "(200, 204, 301->200, 4xx, 5xx); unreadable paths. Inputs come from a grammar-aware generator (valid text mutated by truncation, dropped/surplus/hostile cells such as "
+                "out-of-range numbers, bad dates, NUL, BOM, stray quotes, CRLF, damaged headers, wrong separators, wrong top-level value) and raw bytes in 1/8 of the draws. Oracle: the "
+                "process survives (a panic in the reader goroutine kills the test binary and is promoted to a violation with the in-flight case); the stream closes and no library "
+                "goroutine remains (goroutine census); the rows delivered equal the well-formed prefix computed by the harness (encoding/csv record by record + strconv per field kind; "
+                "encoding/json element by element); non-200 -> error; unreadable file -> error. Non-trivial: >= 1 well-formed record followed by a malformed one (or a non-success "
+                "status). Thorough adds native fuzz targets FuzzCsvHeader, FuzzCsvNoHeader, FuzzJSON with the same oracles.",
+        "technique": "grammar-aware property-based testing (rapid) with a well-formed-prefix differential oracle and goroutine census; native coverage-guided fuzzing in thorough",
+        "level_text": "Hostile CSV/JSON/HTTP inputs are generated from mutated valid text and raw bytes; survival, stream closure and absence of leftover goroutines are checked for every input, and the delivered records are compared with an independently computed well-formed prefix. Sampling plus (thorough) coverage-guided fuzzing; never establishes absence.",
+        "level_note": "Headers that name a struct column twice are ambiguous and only checked for survival/closure. LastDate on a malformed-but-valid JSON value (e.g. null) is not asserted.",
+        "assumptions": ["the well-formed prefix is defined through encoding/csv and encoding/json tokenisation, which the library also uses"],
+        "gomaxprocs": [2],
+        "quick": {"checks": 700, "shards": 8},
+        "thorough": {"checks": 5000, "shards": 16, "timeout": 7200, "fuzz": [("FuzzCsvHeader", 60), ("FuzzCsvNoHeader", 60), ("FuzzJSON", 60)]},
+    },
 }
